@@ -13,5 +13,5 @@ CHECKS["C10"] = dict(
           "Non-trivial = a sequence with a direction change, or a view that straddles a gap between domains, or a view that ends between samples; distinct by script hash."),
     assumptions=["Seek return values are not asserted (the property speaks about steps and views)",
                  "SetBounds is always followed by a seek (documented: the iterator is invalid until then)"],
-    tests=[dict(name="TestC10", quick=dict(cases=700, shards=4), thorough=dict(cases=6000, shards=16, timeout=2400))],
+    tests=[dict(name="TestC10", quick=dict(cases=700, shards=8), thorough=dict(cases=6000, shards=16, timeout=2400))],
 )
